@@ -137,7 +137,8 @@ theorem revTable_getD_length (tl : List (List Nat)) (v : Nat) :
 
 /-! ## simulation: the translated loop computes `dfsLoop` -/
 
-/-- the generalised simulation: any stack, any accumulator, any third component whose growth is recorded -/
+/-- the generalised simulation: any stack, any accumulator; `fuel` must cover the stack plus the transitions
+into states not yet visited (each iteration pops one element; a new state pushes its table entry) -/
 theorem loop_sim (table : List (Int × List Int)) (tl : List (List Nat))
     (htab : ∀ v : Nat, Py.dictGet table (v : Int) = ((revTable tl).getD v []).map Int.ofNat)
     (stack acc : List Nat) :
